@@ -33,7 +33,7 @@ def install_schema(reg: Registry):
     s.add_class('Asset', {'name': T.str, 'id': T('int', opt=True), 'type': T.str})
     # the parts of the instance model the attack-graph side reads (model.py has its own contract file)
     s.add_class('EPTuple', {'t0': Obj('Asset'), 't1': List(T.str)})          # (asset, [step names]) entry-point tuple
-    s.add_class('AttackerAttachment', {'name': T.str, 'entry_points': List(Obj('EPTuple')), 'id': T('int', opt=True)})
+    s.add_class('AttackerAttachment', {'name': T('str', opt=True), 'entry_points': List(Obj('EPTuple')), 'id': T('int', opt=True)})
     s.add_class('Model', {'name': T.str, 'attackers': List(Obj('AttackerAttachment')), 'assets': List(Obj('Asset'))})
 
     def dflt_none(ex, st): return SV_NONE
